@@ -105,6 +105,11 @@ static const char* kCurated[] = {
     "a: x ?0=0>a",
     "a: x ?0=*>b; b: y ?0=0>c; c: x ?0=1>a",
     "a: b; b: a",
+    // discovered dependencies on DERIVED keys (reported, not read): recorded cycles that no request contains
+    "a: x !b; b: a",
+    "a: x !b; b: y !a",
+    "a: x !d; d: b; b: d; b': y",
+    "a: x !d; d: b; b: d; b': y; c: b",
     // mixed
     "a: x ?0=1>y !z; b: a/S x; c: b a/M",
     "a: x; b: a ?0=1>y %collapse; c: b !x #cell",
